@@ -7,7 +7,7 @@ seeded/<id>/result.json.  Expected: exit 1 with a VIOLATION line.  Evidence/repl
 import json, os, subprocess, sys, tempfile, shutil, time
 
 VERIF = os.path.dirname(os.path.dirname(os.path.abspath(__file__)))
-WT = "/tmp/wt_seedrun"
+WT = os.environ.get("SEEDRUN_WT", "/tmp/wt_seedrun")
 
 def main():
     args = sys.argv[1:]
